@@ -50,6 +50,15 @@ func runC17(c *Ctx) {
 	batchKeyRule(c, "BATCH-KEY")
 	c17ProtoFileTotal(c)
 	c17OutputCacheKey(c)
+	if q := c.P.Pkg("private/bufpkg/bufprotoplugin/bufprotopluginos"); q != nil {
+		ruleSameCanonicaliser(c, "SAME-CANONICAL", q, 1)
+	}
+	if q := c.P.Pkg("private/bufpkg/bufprotoplugin"); q != nil {
+		c17MarkerDelimited(c, q)
+	}
+	if q := c.P.Pkg("private/buf/bufprotopluginexec"); q != nil {
+		c17ResponseAddedWhole(c, q)
+	}
 	ruleClosureFollowsAll(c, "CLOSURE-FOLLOWS-ALL")
 	// ImagesToCodeGeneratorRequests: fill loop before request loop
 	if fr := p.Func("private/bufpkg/bufimage", "ImagesToCodeGeneratorRequests"); fr != nil {
